@@ -4,6 +4,7 @@ import (
 	"fmt"
 	"os"
 	"strings"
+	"time"
 
 	"verif/checker/internal/core"
 	"verif/checker/internal/fam"
@@ -58,8 +59,16 @@ type member struct {
 // runMember explores a member and hands each world to check; bookkeeping of
 // obligations, run failures and budgets is shared.
 func runMember(c *core.Ctx, mb member, rules map[string]bool, budget int, check func(w *fam.World, fm *fam.FileModel) []fam.Issue) {
+	t0 := time.Now()
 	worlds, complete := fam.Run(c.Prog, mb.cfg, mb.root, budget, nil)
 	key := mb.name + " " + fam.CfgString(mb.cfg)
+	if os.Getenv("VCHECK_TIMING") != "" {
+		defer func() {
+			if d := time.Since(t0); d > 300*time.Millisecond {
+				fmt.Printf("TIMING %.1fs %d worlds %s\n", d.Seconds(), len(worlds), key)
+			}
+		}()
+	}
 	if !complete {
 		c.Undecided("A-UNDECIDED", "(families)", "fork budget for "+mb.name, "", fmt.Sprintf("more than %d worlds for %s", budget, key))
 	}
@@ -91,7 +100,7 @@ func runMember(c *core.Ctx, mb member, rules map[string]bool, budget int, check 
 			}
 		}
 		wkey := fmt.Sprintf("%s world%v", key, w.Script)
-		bad := 0
+		bad, knownHere := 0, 0
 		for _, is := range issues {
 			base := is.Rule
 			if i := strings.IndexByte(base, ':'); i >= 0 {
@@ -100,10 +109,14 @@ func runMember(c *core.Ctx, mb member, rules map[string]bool, budget int, check 
 			if !(rules[is.Rule] || rules[base] || is.Rule == "A-UNDECIDED" || is.Rule == "A-SYN" || is.Rule == "A-PANIC" || is.Rule == "A-GENERR") {
 				continue
 			}
-			bad++
 			fn := is.Site
 			if fn == "" {
 				fn = "(emitted code)"
+			}
+			if c.IsKnown(is.Rule, fn, is.Construct) {
+				knownHere++
+			} else {
+				bad++
 			}
 			kind := "violation"
 			if is.Rule == "A-UNDECIDED" {
@@ -111,7 +124,7 @@ func runMember(c *core.Ctx, mb member, rules map[string]bool, budget int, check 
 			}
 			c.Report(core.Finding{Rule: is.Rule, Func: fn, Construct: is.Construct, Kind: kind, Msg: is.Msg + "  [first seen on: " + w.Describe() + "]"})
 		}
-		c.Obl("family", wkey, bad == 0, fmt.Sprintf("%d issue(s)", bad))
+		c.Obl("family", wkey, bad == 0, fmt.Sprintf("%d new issue(s), %d instance(s) of listed known findings", bad, knownHere))
 		if len(c.Samples) < 6 && w.Err == nil && w.GenErr == "" {
 			if fm := w.Models["out.go"]; fm != nil {
 				excerpt := fm.F.R.Text
@@ -348,7 +361,13 @@ func addPropsMembers(tier string, cfg gen.Config) []member {
 func anyOfMembers(tier string, cfg gen.Config) []member {
 	var out []member
 	branch := func(i int) *fam.Spec {
-		return &fam.Spec{Kind: "object", Props: []*fam.Prop{{Label: fmt.Sprintf("b%d", i), Spec: &fam.Spec{Kind: "string"}, Required: i%2 == 0}, {Label: fmt.Sprintf("c%d", i), Spec: &fam.Spec{Kind: "integer", Kw: []string{"minimum"}}}}}
+		c := &fam.Spec{Kind: "integer"}
+		if i < 2 {
+			c.Kw = []string{"minimum"} // bounded only in the first two branches: keeps the region product small under --min-sized-ints
+		} else {
+			c = &fam.Spec{Kind: "string", Kw: []string{"maxLength"}}
+		}
+		return &fam.Spec{Kind: "object", Props: []*fam.Prop{{Label: fmt.Sprintf("b%d", i), Spec: &fam.Spec{Kind: "string"}, Required: i%2 == 0}, {Label: fmt.Sprintf("c%d", i), Spec: c}}}
 	}
 	// a branch that is a map-only object (typed additionalProperties, no properties) gets an unmarshaler on a map type
 	out = append(out, member{name: "anyOf with a map-only branch", cfg: cfg, root: &fam.Spec{Kind: "object", Props: []*fam.Prop{{Label: "u", Required: true,
